@@ -46,7 +46,8 @@ class Hostile(Layout):
     """Random trivia at every boundary, as far as the grammar permits; random letter case for case-insensitive words."""
 
     COMMENT_TEXTS = ["c", "lda #1", "x: {", "}", ".byte 1, 2", "\"quote", "* = $1000", "a /* b", "é€", "", "  ", ".if 0 {", "else",
-                     "***", "** doc **", "=*", "/", "//", "///", "x //* old */ y", "*", "a */* b */ c /"]
+                     "***", "** doc **", "=*", "/", "//", "///", "x //* old */ y", "*", "a */* b */ c /",
+                     "todo:", "two things left to do:", "loop:", "x: {", "see below :", ":"]
 
     def __init__(self, rng, crlf=None, comments=True, case=True, multiline_block=True, else_comments=True, same_line=0.1):
         super().__init__(rng, rng.random() < 0.3 if crlf is None else crlf)
@@ -636,7 +637,10 @@ class Renderer:
             for m in end:
                 marks.append((m[0], m[1], off, "e"))
         text = "".join(out)
-        if self.layout.rng is not None and self.layout.rng.random() < 0.5:
+        if self.layout.rng is not None and getattr(lay, "same_line", 0) and self.layout.rng.random() < 0.15:
+            # a file that ends with empty lines (some of them holding blanks)
+            text += "".join(self.layout.rng.choice(["", "", " ", "\t"]) + lay.nl for _ in range(self.layout.rng.randrange(2, 5)))
+        elif self.layout.rng is not None and self.layout.rng.random() < 0.5:
             text += lay.nl
         elif self.layout.rng is None:
             text += lay.nl
